@@ -84,6 +84,11 @@ def run(chk):
               "sympy 1.14")
     chk.not_decided("long-time boundedness of the energy error", "convergence constant's dependence on omega")
     import hiten.algorithms.integrators.symplectic as sym
+    # the callee contract the sub-flows rely on (dHdQ, dHdP are the gradient of ONE polynomial H) - for 'every polynomial
+    # Hamiltonian', those with structurally empty blocks included (obligation shared with C17)
+    from contracts import C17 as _c17
+    chk.under_contract(SY + ":_eval_dH_dQ", SY + ":_eval_dH_dP")
+    _c17._rhs_algebra(chk, 3, drop=(0, 4))
 
     v = sp.symbols("Q0:3 P0:3 X0:3 Y0:3", real=True)
     d, om = sp.symbols("delta omega", real=True)
